@@ -1833,7 +1833,11 @@ class slate_BradleyTerry(BallotGenerator):
             ):
                 acceptance_prob = odds
 
-            # if swap increases number of voters bloc above opposing or swaps two of same bloc
+            # if swap increases number of voters bloc above opposing: Metropolis ratio 1/odds
+            elif current_ranking[j1] != current_ranking[j2] and odds > 1:
+                acceptance_prob = 1 / odds
+
+            # if it swaps two of same bloc (or the ratio is at least 1)
             else:
                 acceptance_prob = 1
 
